@@ -4,11 +4,11 @@
 //
 // Kani is run with debug assertions on, so `buggy::Bug::new` (bug!, .assume()) is a PANIC here.
 //
-//  * raw bytes -> SyncIncoming::decode -> SyncResponder::receive on an arbitrary valid responder
-//    -> SyncResponder::poll with a storage provider that has no graph (everything that can be
-//    reached without a stored graph).
-//  * structured: every SyncRequestMessage variant with symbolic fields against the exact
-//    dispatch specification (session id check, state transitions).
+//  * raw bytes -> SyncIncoming::decode for the integer-only poll kinds (decode step).
+//  * structured: every SyncRequestMessage variant with symbolic fields through
+//    SyncResponder::dispatch (= receive) on every valid responder state against the exact
+//    specification (session id check, state transitions), followed by SyncResponder::poll with a
+//    storage provider that has no graph (everything that can be reached without a stored graph).
 use super::{super::SyncIncoming, *};
 use crate::PolicyId;
 use crate::storage::{
@@ -241,28 +241,27 @@ fn variant_no(m: &SyncRequestMessage) -> u8 {
 }
 
 // ---------------------------------------------------------------------------------------------
-// A. bytes -> decode -> receive -> poll   (see sync_msg.rs for how the bytes are made symbolic)
+// A. bytes -> decode   (see sync_msg.rs for how the bytes are made symbolic)
 // ---------------------------------------------------------------------------------------------
 
 const DECODE_ERR: u8 = 0;
 const NOT_A_POLL: u8 = 1;
 
-/// decode -> receive on an arbitrary valid responder. Returns (what receive did, 0).
+const POLL_SYNC_REQUEST: u8 = 2;
+const POLL_REQUEST_MISSING: u8 = 3;
+const POLL_SYNC_RESUME: u8 = 4;
+const POLL_END_SESSION: u8 = 5;
+
+/// The decoding step in front of `SyncResponder::receive`: SyncIncoming::decode on raw bytes.
+/// What `receive` does with the decoded request is decided for ALL request values by
+/// c18_responder_dispatch_structured (composing it here as well did not finish in 900 s).
 fn process_poll_bytes(data: &[u8]) -> (u8, u8) {
     match SyncIncoming::decode(data) {
         Ok(SyncIncoming::Poll(p)) => {
-            let msg_session = p.session_id();
-            assert!(msg_session == p.message.session_id());
-            let variant = variant_no(&p.message);
-            let mut r = any_responder(1, 1);
-            let pre_state = state_no(&r.state);
-            let pre_session = r.session_id;
-            let res = r.receive(p);
-            let d = check_dispatch(&r, &res, pre_state, pre_session, msg_session, variant);
-            // (`poll` afterwards: decided for every valid responder state by
-            // c18_responder_poll_any_state / c18_responder_dispatch_structured)
-            core::mem::forget(r);
-            (d, 0)
+            assert!(p.session_id() == p.message.session_id());
+            let v = variant_no(&p.message);
+            core::mem::forget(p);
+            (POLL_SYNC_REQUEST + v, 0)
         }
         Ok(_) => (NOT_A_POLL, 0),
         Err(_) => (DECODE_ERR, 0),
@@ -299,17 +298,17 @@ macro_rules! raw_poll_harness {
 }
 
 raw_poll_harness!(c18_responder_raw_end_session, 22, [0, 3],
-    [DECODE_ERR, DISPATCH_OTHER_SESSION, DISPATCH_STOPPED],
+    [DECODE_ERR, POLL_END_SESSION],
     [],
-    [2 3 4 12 20 21 22]);
+    [2 3 21 22]);
 raw_poll_harness!(c18_responder_raw_sync_resume, 24, [0, 2],
-    [DECODE_ERR, DISPATCH_OTHER_SESSION, DISPATCH_UNSUPPORTED],
+    [DECODE_ERR, POLL_SYNC_RESUME],
     [],
-    [2 3 4 5 14 23 24]);
+    [4 5 14 24]);
 raw_poll_harness!(c18_responder_raw_request_missing, 24, [0, 1],
-    [DECODE_ERR, DISPATCH_OTHER_SESSION, DISPATCH_UNSUPPORTED],
+    [DECODE_ERR, POLL_REQUEST_MISSING],
     [],
-    [2 3 4 5 6 14 24]);
+    [3 4 5 24]);
 
 // ---------------------------------------------------------------------------------------------
 // B. structured requests
